@@ -286,7 +286,7 @@ Spec == Init /\ [][Next]_vars
 (* Invariants *)
 
 TypeOK ==
-    /\ n \in NSet /\ t \in 1..n /\ coef \in [1..t -> Zq]
+    /\ n >= 1 /\ t \in 1..n /\ coef \in [1..t -> Zq]
     /\ st \in {"none", "waiting", "success", "fallen"}
     /\ S \subseteq Members /\ (S # {} => Cardinality(S) = t)
     /\ \A i \in Members : ps[i] = NoShare \/ (ps[i].R \in Zq /\ ps[i].z \in Zq)
@@ -308,11 +308,14 @@ Secrecy ==
                            IN \A i \in A : Eval(g, i) = Sk(i)}) = 1
 
 Live == st = "waiting" /\ S # {}
+\* a round that has just been created: the predicates that do not depend on who has signed are evaluated here, once
+\* per round (nothing they mention changes until the next round: avars are written by NewRound only)
+Fresh == Live /\ Signed = {} /\ expH = h + Period
 
 \* the cached values are the transcribed definitions
 CacheOK ==
     /\ pk = [i \in Members |-> Sk(i)]
-    /\ S # {} => /\ pubN = PubNonces(S, dn, en, rho)
+    /\ Fresh => /\ pubN = PubNonces(S, dn, en, rho)
                  /\ gR = GroupNonceOf(S, dn, en, rho) /\ gR = SumF(pubN, S) /\ ch = orc[gR] /\ ch # -1
                  /\ chl = ChalLam(S, Chal)
                  /\ hon = HonestOf(S, dn, en, rho, Chal)
@@ -323,19 +326,22 @@ HonestAccepted == Live => \A i \in S \ Signed : Acceptable(i, i, Honest(i))
 \* (4) the checks accept nothing else: for every claimed id, over ALL pairs (R, z) sent by that member; and nothing at all
 \* from anybody else (0 = an account that is not a member), whichever assigned member's correct share is sent
 AcceptIffCorrect ==
-    Live => /\ \A mid \in Members, r \in Zq, z \in Zq :
+    Fresh => /\ \A mid \in Members, r \in Zq, z \in Zq :
                  LET sh == [R |-> r, z |-> z]
                  IN Acceptable(mid, mid, sh) <=> (mid \in S \ Signed /\ sh = Honest(mid))
             /\ \A snd \in 0..n : \A mid \in Members \ {snd}, i \in S : ~Acceptable(snd, mid, Honest(i))
 
+\* ... in particular not a second share of a member that has signed
+SignedRejected == Live => \A mid \in Signed, i \in S : ~Acceptable(mid, mid, Honest(i))
+
 \* (5) the aggregate of the correct shares verifies under Y = f(0)*G with the challenge of the group nonce
 AggregateVerifies ==
-    Live => LET a == Aggregate([i \in S |-> Honest(i)], S)
+    Fresh => LET a == Aggregate([i \in S |-> Honest(i)], S)
             IN a.R = GroupNonce /\ VerifyWith(a, Chal)
 
 \* (6) every single-component corruption that changes the share is refused ...
 CorruptRejected ==
-    Live => \A kind \in Kinds, i \in S : \A x \in Aux(kind, i) :
+    Fresh => \A kind \in Kinds, i \in S : \A x \in Aux(kind, i) :
         LET c == Corr(kind, i, x) IN ~IsCorrect(c) => ~Acceptable(c.snd, c.mid, c.sh)
 
 \* (7) ... and, were it stored in the claimed member's slot next to the other members' correct shares, the aggregate
@@ -343,7 +349,7 @@ CorruptRejected ==
 \* one of the Q possible oracle answers if the aggregate nonce changed (a fresh oracle query: probability 1/Q here,
 \* 2^-256 on the curve).  The group key must be a point (Y # 0): under the identity key every (R, R) verifies.
 WouldNotVerify ==
-    (Live /\ Y # 0) => \A kind \in Kinds \ {"outsider"}, i \in S : \A x \in Aux(kind, i) :
+    (Fresh /\ Y # 0) => \A kind \in Kinds \ {"outsider"}, i \in S : \A x \in Aux(kind, i) :
         LET c == Corr(kind, i, x)
             a == Aggregate([j \in S |-> IF j = c.mid THEN c.sh ELSE Honest(j)], S)
         IN (c.mid \in S /\ c.sh # Honest(c.mid)) =>
@@ -359,7 +365,7 @@ NeverFailsComplete == st = "fallen" => sig = NoSig
 
 Safety ==
     /\ TypeOK /\ CacheOK /\ LagrangeInterp /\ Secrecy
-    /\ HonestAccepted /\ AcceptIffCorrect /\ AggregateVerifies /\ CorruptRejected /\ WouldNotVerify
+    /\ HonestAccepted /\ AcceptIffCorrect /\ SignedRejected /\ AggregateVerifies /\ CorruptRejected /\ WouldNotVerify
     /\ StoredCorrect /\ PendIffComplete /\ PublishedValid /\ PublishedVerifies /\ NeverFailsComplete
 
 ---------------------------------------------------------------------------
